@@ -564,6 +564,7 @@ func (s *HASyncer) performFullSync() error {
 
 	// Apply full sync
 	s.receivedMu.Lock()
+	previous := s.receivedSessions
 	s.receivedSessions = make(map[string]*SessionState)
 	for i := range msg.Sessions {
 		session := msg.Sessions[i]
@@ -573,6 +574,18 @@ func (s *HASyncer) performFullSync() error {
 				zap.String("session_id", session.SessionID),
 				zap.Error(err),
 			)
+		}
+	}
+	// Sessions received earlier that the active no longer has were deleted
+	// while we were disconnected: drop them from the store as well.
+	for id := range previous {
+		if _, ok := s.receivedSessions[id]; !ok {
+			if err := s.store.DeleteSession(id); err != nil {
+				s.logger.Warn("Failed to delete stale session",
+					zap.String("session_id", id),
+					zap.Error(err),
+				)
+			}
 		}
 	}
 	s.receivedMu.Unlock()
